@@ -1771,10 +1771,32 @@ fn fired_is_read_side(sim: &Sim) -> bool {
     fsim::with_fs(sim, |fs| !fs.fired.is_empty() && fs.fired.iter().all(|f| matches!(f.op, IoOp::Read | IoOp::Stat | IoOp::Mmap | IoOp::OpenDir | IoOp::OpenRead)))
 }
 
+/// Open a directory again after an open that an injected fault failed. A fault episode can
+/// reach into the retry: every attempt that fails must coincide with a newly injected failure.
+fn open_after_fault(ctx: &mut Ctx, rel: &str, cfg: &StoreCfg, errors_seen: &dyn Fn(&Sim) -> usize) -> Result<Store, String> {
+    let mut last = String::new();
+    for _ in 0..10 {
+        let e0 = errors_seen(ctx.sim);
+        match open_store(ctx, rel, cfg) {
+            Ok(s) => return Ok(s),
+            Err(e) => {
+                ctx.join_others();
+                last = e;
+                if errors_seen(ctx.sim) == e0 {
+                    break;
+                }
+            }
+        }
+    }
+    Err(last)
+}
+
 pub fn run_fault_one(ctx: &mut Ctx, scn: &StoreScn) {
     let (nth, errno, mode) = scn.fault.expect("fault spec");
     fsim::with_fs(ctx.sim, |fs| {
-        fs.fault = Some(fsim::FaultSpec { nth, errno, mode: if mode == 1 { fsim::FailMode::ShortThenError } else { fsim::FailMode::Clean } });
+        // mode: low nibble 0 clean / 1 short-then-error; bits 4-6: further failing calls of an
+        // episode; bit 7: the episode is a full disk (only writes and creates fail)
+        fs.fault = Some(fsim::FaultSpec { nth, errno, mode: if mode & 0x0f == 1 { fsim::FailMode::ShortThenError } else { fsim::FailMode::Clean }, extra: ((mode >> 4) & 7) as u32, space_only: mode & 0x80 != 0 });
         fs.fault_reads = scn.fault_reads;
     });
     let rel = ctx.new_dir("s");
@@ -1782,8 +1804,13 @@ pub fn run_fault_one(ctx: &mut Ctx, scn: &StoreScn) {
     let cfg = scn.cfg.clone();
     let errors_seen = |sim: &Sim| -> usize { fsim::with_fs(sim, |fs| fs.log.iter().filter(|r| r.injected && r.res < 0 && !r.what.ends_with("eintr")).count()) };
     let mut model = Model::new();
-    // the failed operation's key may hold either value until a later acknowledged operation settles it
-    let mut uncertain: Option<(Vec<u8>, Option<Vec<u8>>, Option<Vec<u8>>)> = None;
+    // a failed operation's key may hold either value until a later acknowledged operation settles
+    // it; with an episode of several failures a key can collect more than two alternatives
+    let mut uncertain: BTreeMap<Vec<u8>, Vec<Option<Vec<u8>>>> = BTreeMap::new();
+    let episode = (mode >> 4) & 7 > 0;
+    if episode {
+        ctx.sim.probe(if mode & 0x80 != 0 { "fault_episode_disk_full" } else { "fault_episode_io_errors" });
+    }
     let mut fault_op: Option<String> = None;
     let mut store: Option<Store> = None;
     // the initial open is an operation too
@@ -1809,7 +1836,7 @@ pub fn run_fault_one(ctx: &mut Ctx, scn: &StoreScn) {
                 }
                 fault_op = Some("open".into());
                 ctx.join_others();
-                match open_store(ctx, &rel, &cfg) {
+                match open_after_fault(ctx, &rel, &cfg, &errors_seen) {
                     Ok(s) => store = Some(s),
                     Err(e2) => {
                         ctx.viol("unusable-after-fault", format!("fault #{} (errno {}) failed the initial open ({}); the directory cannot be opened afterwards: {}", nth, errno, e, e2), "");
@@ -1834,23 +1861,20 @@ pub fn run_fault_one(ctx: &mut Ctx, scn: &StoreScn) {
         let desc;
         // outcome: Ok(()) or Err(text)
         let mut outcome: Result<(), String> = Ok(());
-        let mut touched: Option<(Vec<u8>, Option<Vec<u8>>, Option<Vec<u8>>)> = None;
+        let mut touched: Option<(Vec<u8>, Option<Vec<u8>>)> = None;
         match &op {
             Op::Set(k, v) => {
                 let key = keys[*k].clone();
                 let val = v.bytes();
                 desc = format!("op#{} set({}, {}B)", i, hex(&key), val.len());
-                let old = model.get(&key).cloned();
                 match set(&h, &key, val.clone()) {
                     Ok(()) => {
                         model.insert(key.clone(), val.clone());
-                        if matches!(&uncertain, Some((uk, _, _)) if *uk == key) {
-                            uncertain = None;
-                        }
+                        uncertain.remove(&key);
                     }
                     Err(e) => {
                         outcome = Err(e);
-                        touched = Some((key, old, Some(val)));
+                        touched = Some((key, Some(val)));
                     }
                 }
             }
@@ -1860,28 +1884,20 @@ pub fn run_fault_one(ctx: &mut Ctx, scn: &StoreScn) {
                 let old = model.get(&key).cloned();
                 match del(&h, &key) {
                     Ok(b) => {
-                        let want = if let Some((uk, a, b2)) = &uncertain {
-                            if *uk == key {
-                                // either answer is acceptable while the key is uncertain
-                                let _ = (a, b2);
-                                b
-                            } else {
-                                old.is_some()
-                            }
-                        } else {
-                            old.is_some()
+                        // while the key is uncertain the answer must fit one of its alternatives
+                        let ok = match uncertain.get(&key) {
+                            Some(alts) => alts.iter().any(|a| a.is_some() == b),
+                            None => old.is_some() == b,
                         };
-                        if b != want {
-                            ctx.viol("wrong-after-fault", format!("{} returned {} but the key was {} (fault #{} errno {} in {:?})", desc, b, if want { "present" } else { "absent" }, nth, errno, fault_op), "");
+                        if !ok {
+                            ctx.viol("wrong-after-fault", format!("{} returned {} but the key was {} (fault #{} errno {} in {:?})", desc, b, if b { "absent" } else { "present" }, nth, errno, fault_op), "");
                         }
                         model.remove(&key);
-                        if matches!(&uncertain, Some((uk, _, _)) if *uk == key) {
-                            uncertain = None;
-                        }
+                        uncertain.remove(&key);
                     }
                     Err(e) => {
                         outcome = Err(e);
-                        touched = Some((key, old, None));
+                        touched = Some((key, None));
                     }
                 }
             }
@@ -1890,9 +1906,9 @@ pub fn run_fault_one(ctx: &mut Ctx, scn: &StoreScn) {
                 desc = format!("op#{} get({})", i, hex(&key));
                 match get(&h, &key) {
                     Ok(got) => {
-                        let ok = match &uncertain {
-                            Some((uk, a, b)) if *uk == key => got == *a || got == *b,
-                            _ => got == model.get(&key).cloned(),
+                        let ok = match uncertain.get(&key) {
+                            Some(alts) => alts.contains(&got),
+                            None => got == model.get(&key).cloned(),
                         };
                         if !ok {
                             ctx.viol("wrong-after-fault", format!("{} returned {} but should be {} (fault #{} errno {} in {:?})", desc, hexo(&got), hexo(&model.get(&key).cloned()), nth, errno, fault_op), "");
@@ -1932,7 +1948,7 @@ pub fn run_fault_one(ctx: &mut Ctx, scn: &StoreScn) {
                     if errors_seen(ctx.sim) > e0 {
                         outcome = Err(e);
                         ctx.join_others();
-                        match open_store(ctx, &rel, &cfg) {
+                        match open_after_fault(ctx, &rel, &cfg, &errors_seen) {
                             Ok(s) => store = Some(s),
                             Err(e2) => {
                                 ctx.viol("unusable-after-fault", format!("fault #{} (errno {}) failed {}; the directory cannot be opened afterwards: {}", nth, errno, desc, e2), "");
@@ -1973,9 +1989,11 @@ pub fn run_fault_one(ctx: &mut Ctx, scn: &StoreScn) {
             (Err(_), true) => {
                 fault_op = Some(desc.clone());
                 ctx.sim.probe("fault_reported_as_error");
-                if let Some(t) = touched.take() {
-                    if t.1 != t.2 {
-                        uncertain = Some(t);
+                if let Some((k, new)) = touched.take() {
+                    let acked = model.get(&k).cloned();
+                    let alts = uncertain.entry(k).or_insert_with(|| vec![acked]);
+                    if !alts.contains(&new) {
+                        alts.push(new);
                     }
                 }
                 match &op {
@@ -1994,43 +2012,42 @@ pub fn run_fault_one(ctx: &mut Ctx, scn: &StoreScn) {
         if faulted_here || i + 1 == all_ops.len() || i + 1 == total {
             let s = store.as_ref().unwrap();
             for key in keys {
-                let got = match get(&s.h, key) {
+                let mut eg = errors_seen(ctx.sim);
+                let mut first = get(&s.h, key);
+                // a read-side fault (or the rest of an episode) may hit the oracle's own get: a
+                // get may fail as often as a call of it was failed, never without one
+                let mut tries = 0;
+                while first.is_err() && scn.fault_reads && errors_seen(ctx.sim) > eg && tries < 10 {
+                    eg = errors_seen(ctx.sim);
+                    first = get(&s.h, key);
+                    tries += 1;
+                }
+                let got = match first {
                     Ok(g) => g,
                     Err(e) => {
-                        // a read-side fault may hit the oracle's own get: it must then be an error once
-                        if scn.fault_reads && errors_seen(ctx.sim) > e0 && !faulted_here {
-                            match get(&s.h, key) {
-                                Ok(g) => g,
-                                Err(e2) => {
-                                    ctx.viol("unusable-after-fault", format!("get({}) keeps failing after a read fault: {}", hex(key), e2), "");
-                                    break;
-                                }
-                            }
+                        if tries > 0 {
+                            ctx.viol("unusable-after-fault", format!("get({}) keeps failing after a read fault: {}", hex(key), e), "");
                         } else {
                             ctx.viol("unusable-after-fault", format!("after {} (fault #{} errno {} in {:?}) get({}) returned {}", desc, nth, errno, fault_op, hex(key), e), "");
-                            break;
                         }
+                        break;
                     }
                 };
-                let ok = match &uncertain {
-                    Some((uk, a, b)) if uk == key => got == *a || got == *b,
-                    _ => got == model.get(key).cloned(),
+                let ok = match uncertain.get(key) {
+                    Some(alts) => alts.contains(&got),
+                    None => got == model.get(key).cloned(),
                 };
                 if !ok {
                     let what = if matches!(&op, Op::Reopen(..)) || i + 1 == all_ops.len() { "after the restart" } else { "in the running process" };
                     ctx.viol(
                         "wrong-after-fault",
-                        format!("after {} (fault #{} errno {} in {:?}) key {} reads {} {}; acknowledged value is {}{}", desc, nth, errno, fault_op, hex(key), hexo(&got), what, hexo(&model.get(key).cloned()), match &uncertain { Some((uk, a, b)) => format!(" (uncertain key {}: {} or {})", hex(uk), hexo(a), hexo(b)), None => String::new() }),
+                        format!("after {} (fault #{} errno {} in {:?}) key {} reads {} {}; acknowledged value is {}{}", desc, nth, errno, fault_op, hex(key), hexo(&got), what, hexo(&model.get(key).cloned()), match uncertain.get(key) { Some(alts) => format!(" (the key is uncertain after failed operations; acceptable: {})", alts.iter().map(hexo).collect::<Vec<_>>().join(" | ")), None => String::new() }),
                         "",
                     );
                     break;
                 }
-                // in the running process the uncertain key settles on what was observed
-                if let Some((uk, _, _)) = &uncertain {
-                    if uk == key && !matches!(&op, Op::Reopen(..)) {
-                        // keep both alternatives: a restart may legitimately show the other one
-                    }
-                }
+                // an uncertain key keeps all its alternatives: a restart may legitimately show
+                // another one than the running process
             }
         }
         // a transient failure inside a timer-driven merge must not stop the periodic merging:
@@ -2047,7 +2064,7 @@ pub fn run_fault_one(ctx: &mut Ctx, scn: &StoreScn) {
                         model.remove(key);
                     }
                 }
-                uncertain = None;
+                uncertain.clear();
                 let seq2 = io_seq(ctx.sim);
                 ctx.sim.sleep_thread(ctx.me, 3 * scn.cfg.check_interval_ms * 1_000_000 + 1_000_000);
                 let merged = fsim::with_fs(ctx.sim, |fs| fs.log.iter().any(|r| r.seq > seq2 && r.res >= 0 && r.op == IoOp::Create && fs.path_name(r.path).ends_with(".hint")));
